@@ -140,7 +140,19 @@ func blocksWithoutCtx(fn *ssa.Function) string {
 	}
 	why := ""
 	for _, op := range chanOpsOf(fn) {
-		if op.blocking && why == "" {
+		if !op.blocking || why != "" {
+			continue
+		}
+		// an operation that is a listed never-blocks exception (the slot-token send of MapStream) stays one in a helper
+		excepted := false
+		if op.kind != "select" {
+			for k := range ctxArmExceptions {
+				if strings.HasSuffix(k, "|"+op.kind+":"+op.arms[0].chPath) || (op.kind == "send" && strings.HasSuffix(op.arms[0].chPath, ".ready") && strings.Contains(k, "send:") && strings.HasSuffix(k, ".ready")) {
+					excepted = true
+				}
+			}
+		}
+		if !excepted {
 			why = "a blocking " + op.kind
 		}
 	}
